@@ -46,6 +46,10 @@ type ftPlan struct {
 	Many     int  // blockstore only: the first Many blocks are written by one PutMany call
 	Deferred bool // the session runs on a deferred.DeferredCarWriter for a path (kernel short writes, like the blockstore)
 	Second   int  // blockstore only: after the first fault a second one is armed Second bytes into the next section written
+	// Prior: blocks an earlier, fault-free session has put into the same file (storage API only); PriorFin: that
+	// session ended with Finalize. The faulted session is a resumed one (OpenReadableWritable).
+	Prior    []string
+	PriorFin bool
 }
 
 // failingStream: plain io.Writer with the same fault hook.
@@ -127,6 +131,26 @@ func runFaultPoint(sid int, pl ftPlan, w, k int, cont string, k2 int) (ftObs, in
 	roots := idsToCids([]string{"b1"})
 	if pl.Stream {
 		sc, err = storage.NewWritable(stream, roots, pl.O.carOpts()...)
+	} else if len(pl.Prior) > 0 {
+		hook := mem.fail
+		mem.fail = nil
+		sc0, err0 := storage.NewReadableWritable(mem, roots, pl.O.carOpts()...)
+		if err0 != nil {
+			o.Call, o.Msg = "open", "the earlier session could not be created: "+err0.Error()
+			return o, lastLen
+		}
+		for _, id := range pl.Prior {
+			b := alphaByID[id]
+			if e := sc0.Put(bg, b.Cid.KeyString(), b.Data); e != nil {
+				o.Call, o.Msg = "open", "the earlier session: "+e.Error()
+				return o, lastLen
+			}
+		}
+		if pl.PriorFin {
+			sc0.Finalize()
+		}
+		mem.fail = hook
+		sc, err = storage.OpenReadableWritable(mem, roots, pl.O.carOpts()...)
 	} else {
 		sc, err = storage.NewReadableWritable(mem, roots, pl.O.carOpts()...)
 	}
@@ -144,6 +168,9 @@ func runFaultPoint(sid int, pl ftPlan, w, k int, cont string, k2 int) (ftObs, in
 		return o, lastLen
 	}
 	acked := map[string]bool{}
+	for _, id := range pl.Prior {
+		acked[id] = true // acknowledged by the earlier session: still owed
+	}
 	var failedBlock string
 	stop := false
 	for pi := 0; pi < len(pl.Puts) && !stop; pi++ {
@@ -275,6 +302,12 @@ func runFaultEnum(args []string) int {
 			ftPlan{O: sOpts{Maxcid: 2048, Codec: "sorted", Dpad: 1, Ipad: 7}, Puts: p},
 			ftPlan{O: sOpts{Maxcid: 2048, Codec: "mh", V1: true}, Puts: p},
 			ftPlan{O: sOpts{Maxcid: 2048, Codec: "mh", V1: true}, Stream: true, Puts: p})
+	}
+	// resumed sessions: the file already holds an earlier session's blocks (left open, or finalized) when the faulted session starts
+	for _, fin := range []bool{false, true} {
+		plans = append(plans,
+			ftPlan{O: sOpts{Maxcid: 2048, Codec: "mh"}, Puts: []string{"b4", "b13"}, Prior: []string{"b1", "b12"}, PriorFin: fin},
+			ftPlan{O: sOpts{Maxcid: 2048, Codec: "mh", V1: true}, Puts: []string{"b4", "b13"}, Prior: []string{"b1", "b12"}, PriorFin: fin})
 	}
 	type job struct {
 		sid, w, k int
